@@ -110,6 +110,7 @@ PROPS = {
         "kind": "c03",
         "module": "Props.C03",
         "namespace": "Jl.C03",
+        "extra_theorem_files": [("Proofs.Order", "Jl.Order")],
         "rule": ("templates with 0-6 columns in non-alphabetical order (names incl. '', 'é', 'a.b'), hidden anywhere, sub-rows to depth 3; "
                  "input and output template share names and structure as jl builds them; inputs: every permutation of the declared keys "
                  "(<= 4 keys; thorough 5), missing keys, extra keys, objects/arrays with >= 2 members in non-alphabetical order under "
